@@ -19,6 +19,9 @@ type splitter struct {
 	used map[string]int
 	// options
 	noTags bool // do not use !reset / !override
+	// every mention of an optional dependency (`required: false`) carries the flag. Set by C05, whose generated
+	// chains would otherwise stop at the known finding c05:inherited-optional-dependency-becomes-required
+	carryRequired bool
 }
 
 func (s *splitter) coin(label string, num, den int) bool {
@@ -543,6 +546,10 @@ func (s *splitter) splitRefMap(path string, m map[string]any, defaults map[strin
 					if _, ok := fm["condition"]; !ok && i == lastMention {
 						fm["condition"] = inner["condition"]
 					}
+					if _, ok := fm["required"]; !ok && s.carryRequired && inner["required"] == false {
+						fm["required"] = false
+						s.used["carried-required-false"]++
+					}
 				}
 				maps[i][name] = fm
 			}
@@ -648,7 +655,8 @@ func (s *splitter) respell(path string, v any) any {
 			all := len(x) > 0
 			for _, e := range x {
 				m, ok := e.(map[string]any)
-				if !ok || m["condition"] != "service_started" {
+				if !ok || m["condition"] != "service_started" || m["required"] != true {
+					// (a fragment that does not mention `required` is not the list spelling: the list sets it)
 					all = false
 					continue
 				}
@@ -691,6 +699,120 @@ func (s *splitter) respell(path string, v any) any {
 	case []any:
 		if (gp == "services.*.dns" || gp == "services.*.dns_search" || gp == "services.*.tmpfs") && len(x) == 1 && s.coin("single", 1, 2) {
 			return x[0]
+		}
+		if gp == "services.*.ports" && s.coin("shortports", 1, 2) {
+			out := make([]any, len(x))
+			for i, e := range x {
+				out[i] = e
+				m, ok := e.(map[string]any)
+				if !ok || m["mode"] != "ingress" || m["name"] != nil {
+					continue
+				}
+				allowed := true
+				for k := range m {
+					if k != "target" && k != "published" && k != "host_ip" && k != "protocol" && k != "mode" {
+						allowed = false
+					}
+				}
+				if !allowed {
+					continue
+				}
+				str := fmt.Sprint(m["target"])
+				if pub, ok := m["published"]; ok {
+					str = fmt.Sprint(pub) + ":" + str
+					if ip, ok := m["host_ip"].(string); ok {
+						if strings.Contains(ip, ":") {
+							ip = "[" + ip + "]"
+						}
+						str = ip + ":" + str
+					}
+				} else if m["host_ip"] != nil {
+					continue
+				}
+				if proto, ok := m["protocol"].(string); ok {
+					str += "/" + proto
+				}
+				out[i] = str
+				s.used["spelled-port-short"]++
+			}
+			return out
+		}
+		if gp == "services.*.volumes" && s.coin("shortvols", 1, 2) {
+			out := make([]any, len(x))
+			for i, e := range x {
+				out[i] = e
+				m, ok := e.(map[string]any)
+				if !ok {
+					continue
+				}
+				src, _ := m["source"].(string)
+				tgt, _ := m["target"].(string)
+				switch m["type"] {
+				case "volume":
+					ok := true
+					for k := range m {
+						if k != "type" && k != "source" && k != "target" && k != "read_only" {
+							ok = false
+						}
+					}
+					if !ok || len(src) < 2 {
+						continue
+					}
+					str := src + ":" + tgt
+					if ro, _ := m["read_only"].(bool); ro {
+						str += ":ro"
+					}
+					out[i] = str
+					s.used["spelled-volume-short"]++
+				case "bind":
+					b, _ := m["bind"].(map[string]any)
+					if len(b) != 1 || b["create_host_path"] != true || !(strings.HasPrefix(src, "/") || strings.HasPrefix(src, "./") || strings.HasPrefix(src, "../")) {
+						continue
+					}
+					ok := true
+					for k := range m {
+						if k != "type" && k != "source" && k != "target" && k != "read_only" && k != "bind" {
+							ok = false
+						}
+					}
+					if !ok {
+						continue
+					}
+					str := src + ":" + tgt
+					if ro, _ := m["read_only"].(bool); ro {
+						str += ":ro"
+					}
+					out[i] = str
+					s.used["spelled-volume-short"]++
+				}
+			}
+			return out
+		}
+		if gp == "services.*.devices" && s.coin("shortdevs", 1, 2) {
+			out := make([]any, len(x))
+			for i, e := range x {
+				out[i] = e
+				if m, ok := e.(map[string]any); ok && len(m) == 3 {
+					out[i] = fmt.Sprintf("%v:%v:%v", m["source"], m["target"], m["permissions"])
+					s.used["spelled-device-short"]++
+				}
+			}
+			return out
+		}
+		if gp == "services.*.env_file" && s.coin("shortenvfile", 1, 2) {
+			out := make([]any, len(x))
+			for i, e := range x {
+				out[i] = e
+				if m, ok := e.(map[string]any); ok && m["required"] == true && len(m) == 2 {
+					out[i] = m["path"]
+				}
+			}
+			if len(out) == 1 {
+				if str, ok := out[0].(string); ok && s.coin("envfilestring", 1, 2) {
+					return str
+				}
+			}
+			return out
 		}
 		if (gp == "services.*.secrets" || gp == "services.*.configs") && s.coin("shortref", 1, 2) {
 			out := make([]any, len(x))
